@@ -3,6 +3,7 @@
   Property theorems only; lemmas in Proofs/IfFeature.lean.
 -/
 import YangVerif.Proofs.IfFeature
+import YangVerif.Model.CaseIndex
 namespace YangVerif.C11
 open YangVerif.IfFeature
 
@@ -134,5 +135,63 @@ theorem malformed_anywhere_refused (pre post : List (List Tok)) (t : List Tok)
 
 example : builderAccepts [[.feat "a"], [.feat "a", .or], [.feat "b"]] = false ∧
     builderAccepts [[.feat "a"], [.feat "a", .or, .feat "b"], [.not, .feat "b"]] = true := by decide
+
+/-! ### nodes that an if-feature takes out of a case (Model/CaseIndex.lean) -/
+
+section caseIndex
+open YangVerif.CaseIndex
+
+theorem mem_namesOf (cs : List Case) (n : String) :
+    n ∈ namesOf cs ↔ ∃ c ∈ cs, ∃ x ∈ c.nodes, x.name = n := by
+  simp [namesOf, List.mem_flatMap]
+
+/-- **a node of a case is reachable by name from the holder of the choice exactly when its if-features hold**:
+    for every choice, with any number of cases (explicit or shorthand) and nodes -/
+theorem holder_index_exact (cs : List Case) (n : String) :
+    n ∈ holderIndex cs ↔ ∃ c ∈ cs, ∃ x ∈ c.nodes, x.name = n ∧ x.on = true := by
+  unfold holderIndex
+  rw [mem_namesOf]
+  constructor
+  · rintro ⟨c, hc, x, hx, hn⟩
+    simp only [enterChoice, List.mem_filter, List.mem_map] at hc
+    obtain ⟨⟨c0, hc0, rfl⟩, _⟩ := hc
+    simp only [enterCase, List.mem_filter] at hx
+    exact ⟨c0, hc0, x, hx.1, hn, hx.2⟩
+  · rintro ⟨c, hc, x, hx, hn, hon⟩
+    refine ⟨enterCase c, ?_, x, ?_, hn⟩
+    · simp only [enterChoice, List.mem_filter, List.mem_map]
+      refine ⟨⟨c, hc, rfl⟩, ?_⟩
+      have : x ∈ (enterCase c).nodes := by simp [enterCase, List.mem_filter, hx, hon]
+      cases hnodes : (enterCase c).nodes with
+      | nil => rw [hnodes] at this; simp at this
+      | cons _ _ => simp
+    · simp [enterCase, List.mem_filter, hx, hon]
+
+/-- no node that is left out stays in a case, and no shorthand case outlives its node -/
+theorem cases_hold_enabled_nodes_only (cs : List Case) :
+    ∀ c ∈ enterChoice cs, (∀ x ∈ c.nodes, x.on = true) ∧ ¬ (c.implied = true ∧ c.nodes = []) := by
+  intro c hc
+  simp only [enterChoice, List.mem_filter, List.mem_map] at hc
+  obtain ⟨⟨c0, _, rfl⟩, hkeep⟩ := hc
+  refine ⟨?_, ?_⟩
+  · intro x hx; simp only [enterCase, List.mem_filter] at hx; exact hx.2
+  · rintro ⟨hi, hn⟩
+    simp [hi, hn] at hkeep
+
+/-- an explicit case stays, also when every node of it is left out -/
+theorem explicit_case_stays (cs : List Case) (c : Case) (hc : c ∈ cs) (he : c.implied = false) :
+    enterCase c ∈ enterChoice cs := by
+  simp only [enterChoice, List.mem_filter, List.mem_map]
+  exact ⟨⟨c, hc, rfl⟩, by simp [enterCase, he]⟩
+
+/-- the pinned tree indexed the cases as written: `leaf knots { if-feature f; }` in a case, f off, is still found
+    by name, and the shorthand case `short` stays behind empty; the repaired definitions have neither -/
+theorem legacy_case_index_witness :
+    let cs : List Case := [⟨"wood", false, [⟨"knots", false⟩, ⟨"w", true⟩]⟩, ⟨"short", true, [⟨"short", false⟩]⟩]
+    "knots" ∈ holderIndexLegacy cs ∧ "knots" ∉ holderIndex cs ∧ "w" ∈ holderIndex cs ∧
+    (enterChoiceLegacy cs).map (·.name) = ["wood", "short"] ∧ (enterChoice cs).map (·.name) = ["wood"] := by
+  decide
+
+end caseIndex
 
 end YangVerif.C11
